@@ -120,6 +120,16 @@ def gen_direct(parts, variant=None):
         policy["max_offset"] = rng.choice([2, 6, 12])
         policy["p_batch"] = 0.0  # batches only arise under the batching policy; the planners are not judged on them
     policy["shadow_discretization"] = rng.choice([1, 2, 3, 5])
+    if variant == "latent":
+        # a policy that takes simulated time to answer: its decisions are applied `runtime` later, on a state that has
+        # moved on (planned tasks have started or finished meanwhile, new tasks were released)
+        policy["runtime"] = rng.choice([1, 2, 4, 8])
+        policy["retract"] = rng.random() < 0.7
+        policy["p_replan"] = rng.choice([0.5, 1.0])
+        policy["lookahead"] = rng.choice([0, 3, 10, 100])
+        policy["max_offset"] = rng.choice([0, 2, 6])
+        policy["p_batch"] = 0.0
+        policy["p_load"] = 0.0
     for g in graphs:
         bs = {}
         for t in g["tasks"]:
@@ -166,6 +176,7 @@ class Ctx:
         self.end_time = None
         self.task_spec = {}
         self.policy_decision = {}  # id(task) -> the Placement the chaos policy returned last (boundary record)
+        self.pending_decisions = []  # the answer being computed: takes effect at SCHEDULER_FINISHED
         self.task_obj = {}         # id(task) -> Task
         self.worker_info = {}      # id(worker) -> {"wid", "pool", "cap"}
         self.shadow_call = None
@@ -237,6 +248,16 @@ def _install():
         if name == "SIMULATOR_END":
             ctx.ended = True
             ctx.end_time = et
+        if name == "SCHEDULER_FINISHED":
+            for p in ctx.pending_decisions:
+                st = p.task.state.name
+                if st in ("RUNNING", "COMPLETED", "PREEMPTED"):
+                    # the task moved on while the policy was computing: the simulator skips the decision (or preempts /
+                    # migrates the running task, which takes it out of the properties' "non-preempted" scope)
+                    ctx.count("stale_decisions_for_started_tasks")
+                    continue
+                ctx.policy_decision[id(p.task)] = p
+            ctx.pending_decisions = []
     wrap(Sim, "_Simulator__handle_event", before=handle_before)
 
     def trec(ctx, task):
@@ -333,7 +354,7 @@ def _install():
         if r["finishes"]:
             ctx.violate("C02", "finished_twice", f"{name} finished at {r['finishes']} and {t}")
         r["finishes"].append(t)
-        if r["starts"] and "runtime" in r and t != r["starts"][-1] + r["runtime"]:
+        if r["starts"] and "runtime" in r and not r.get("preempted") and t != r["starts"][-1] + r["runtime"]:
             ctx.violate("C03", "runtime_inexact", f"{name} started {r['starts'][-1]} runtime {r['runtime']} finished {t}")
     wrap(Task, "finish", after=finish_after)
 
@@ -341,6 +362,15 @@ def _install():
     def cancel_after(ctx, ret, self, *a, **k):
         ctx.running_due.pop(id(self), None)
     wrap(Task, "cancel", after=cancel_after)
+
+    @active
+    def preempt_after(ctx, ret, self, *a, **k):
+        # a preempted task is outside "a non-preempted task ..." (C02), exact run times (C03) and the lifecycle of C06
+        r = trec(ctx, self)
+        r["preempted"] = True
+        ctx.running_due.pop(id(self), None)
+        ctx.count("preemptions")
+    wrap(Task, "preempt", after=preempt_after)
 
     @active
     def place_after(ctx, ret, self, task, execution_strategy=None, *a, **k):
@@ -455,6 +485,9 @@ def _install():
             pre, post = r.pop("_pre", None), self._state.name
             name = f"{r['key'][1]}@{r['key'][2]} of {r['key'][0]}"
             ctx.count("transitions")
+            if r.get("preempted") or method in ("preempt", "resume"):
+                r["state"] = post
+                return
             if pre != r.get("state", pre):
                 ctx.violate("C06", "state_written_outside_mutators", f"{name}: {r.get('state')} -> {pre} before {method}")
             if pre != post or method == "schedule":
@@ -481,7 +514,7 @@ def _install():
             r["state"] = post
         wrap(Task, method, before=active(before), after=active(after))
 
-    for m in ("release", "schedule", "unschedule", "start", "finish", "cancel"):
+    for m in ("release", "schedule", "unschedule", "start", "finish", "cancel", "preempt", "resume"):
         lifecycle(m)
 
 
@@ -572,15 +605,30 @@ def _make_chaos(policy, pools_desc):
             out = []
             batches = {}  # batches opened in this answer
             pools = list(worker_pools.worker_pools)
+            latency = EventTime(policy.get("runtime", 0), EventTime.Unit.US)
+            decided_at, sim_time = sim_time, sim_time + latency  # nothing can be planned before the answer is applied
             for task in tasks:
                 if task.state.name == "SCHEDULED" and rng.random() >= policy.get("p_replan", 1.0):
                     continue  # leaves an earlier plan alone (no decision for this task)
-                if rng.random() < policy.get("p_cancel", 0.0) and task.state.name != "RUNNING":
+                prev0 = _CTX.policy_decision.get(id(task)) if _CTX is not None else None
+                if (policy.get("runtime") and task.state.name == "SCHEDULED"
+                        and (prev0 is None or not prev0.is_placed() or prev0.placement_time <= sim_time)):
+                    # this task may start before the answer is applied: a cancellation or a retraction of a task that runs
+                    # by then is outside what the properties speak about (the simulator preempts it / refuses); it is
+                    # either left alone or planned again
+                    if _CTX is not None:
+                        _CTX.count("chaos_replans_of_task_that_may_start_meanwhile")
+                    stale_risk = True
+                else:
+                    stale_risk = False
+                if stale_risk:
+                    pass
+                elif rng.random() < policy.get("p_cancel", 0.0) and task.state.name != "RUNNING":
                     out.append(Placement.create_task_cancellation(task))
                     if _CTX is not None:
                         _CTX.count("chaos_cancellations")
                     continue
-                if rng.random() < policy["p_unplaced"]:
+                elif rng.random() < policy["p_unplaced"]:
                     out.append(Placement.create_task_placement(task=task, placement_time=None, worker_pool_id=None,
                                                                execution_strategy=None))
                     continue
@@ -651,12 +699,13 @@ def _make_chaos(policy, pools_desc):
                             if later:
                                 _CTX.count("chaos_loads_for_later")
             if _CTX is not None:
-                for p in out:
-                    if p.placement_type.name in ("PLACE_TASK", "CANCEL_TASK"):
-                        _CTX.policy_decision[id(p.task)] = p
+                # the answer takes effect when the simulator applies it (SCHEDULER_FINISHED), not when it is computed
+                _CTX.pending_decisions = [p for p in out if p.placement_type.name in ("PLACE_TASK", "CANCEL_TASK")]
                 _CTX.count("chaos_calls")
+                if policy.get("runtime"):
+                    _CTX.count("chaos_calls_with_latency")
                 _CTX.count("chaos_placements", sum(1 for p in out if p.placement_type.name == "PLACE_TASK" and p.is_placed()))
-            return Placements(runtime=EventTime.zero(), true_runtime=EventTime.zero(), placements=out)
+            return Placements(runtime=latency, true_runtime=EventTime.zero(), placements=out)
     return ChaosScheduler()
 
 
